@@ -1,4 +1,96 @@
-(* Props/C03.v — placeholder while the proofs are being written *)
-From PV Require Import Base.Prelude SV.SvSyntax SV.SvSizing SV.SvEval SV.SvDrivers.
-Example C03_placeholder : True. Proof. exact I. Qed.
-Print Assumptions C03_placeholder.
+(* Props/C03.v — property C03: translated SystemVerilog behaves exactly like the PyMTL simulation; the emitted text is
+   syntactically valid and every variable has exactly one driver.
+   ONLY statements closed by exact + Print Assumptions.  The semantics these theorems speak about (SV/SvSizing.v,
+   SV/SvEval.v) is OUR formalisation of IEEE 1800-2017 for the emitted subset; harness/c03.py replays the real emitted
+   text in this semantics against the pymtl3 simulation on every run. *)
+From Coq Require Import FMapPositive.
+From PV Require Import Base.Prelude Bits.BitsSpec SV.SvSyntax SV.SvSizing SV.SvEval SV.SvDrivers SV.SvProofs.
+Open Scope Z_scope.
+
+(* "the type checker forces equal widths and inserts casts, so context sizing cannot change results":
+   if every context-sensitive operator of e (+ - * / % & | ^ ~ ?: comparison, widening cast) sees operands of one
+   self-determined width and e sits in a context of exactly its own width w, then IEEE-1800 context-determined evaluation
+   equals the width-strict bottom-up evaluation that PyMTL performs *)
+Theorem C03_selfdet_eq_ctx te en e w : tenv_ok te -> uniform te e = true -> selfw te e = w ->
+  eval_ctx te en w e = eval_sd te en e.
+Proof. exact (sv_selfdet_eq_ctx te en e w). Qed.
+
+(* ... in particular for every assignment `lhs = rhs` / `lhs <= rhs` whose target is as wide as its right-hand side *)
+Theorem C03_assignment_stores_width_strict_value te en l r : tenv_ok te -> assign_uniform te l r = true ->
+  lhs_dims te l = [] -> assign_value te en l r = VZ (eval_sd te en r).
+Proof. exact (sv_assign_selfdet te en l r). Qed.
+
+(* every evaluation result is a W-bit unsigned number *)
+Theorem C03_eval_range te en e W : 0 <= W -> 0 <= eval te en W e < 2 ^ W.
+Proof. exact (sv_eval_range te en e W). Qed.
+
+(* non-blocking assignments never change what the block reads: all right-hand sides see pre-edge values ... *)
+Theorem C03_nonblocking_defers te l r st :
+  x_env (exec te (SNonBlocking l r) st) = x_env st /\
+  x_pend (exec te (SNonBlocking l r) st) = x_pend st ++ [(resolve te (x_env st) l, assign_value te (x_env st) l r)].
+Proof. exact (nonblocking_defers te l r st). Qed.
+Theorem C03_ff_block_reads_pre_edge te body st : Forall (fun s => nb_only s = true) body ->
+  x_env (exec_list te body st) = x_env st.
+Proof. intros H. exact (nb_block_env te body H st). Qed.
+(* ... a blocking assignment takes effect at once and queues nothing ... *)
+Theorem C03_blocking_immediate te l r st :
+  x_pend (exec te (SBlocking l r) st) = x_pend st /\
+  x_env (exec te (SBlocking l r) st) = write_ref (resolve te (x_env st) l) (assign_value te (x_env st) l r) (x_env st).
+Proof. exact (blocking_immediate te l r st). Qed.
+(* ... and of several non-blocking writes to one register the last one is what it holds after the edge *)
+Theorem C03_nonblocking_last_wins x w v u p en : 0 <= w -> PM.find x (commit p en) = Some (VZ u) ->
+  read_bits (commit (p ++ [(scalar_ref x w, VZ v)]) en) (scalar_ref x w) = v mod 2 ^ w.
+Proof. exact (nonblocking_last_wins x w v u p en). Qed.
+
+(* the acceptor run on every module of every parsed emitted text: every bit of every declared variable is driven by exactly
+   one of {input port, one continuous assign, one always block, one instance output port} *)
+Theorem C03_single_driver F m : sv_single_driver F m = true ->
+  forall dc, In dc (mod_vars m) -> forall b, 0 <= b < vbits (d_ty dc, d_dims dc) ->
+  exists k d, nth_error (drivers F m) k = Some d /\ drives d (d_id dc) b = true /\
+    forall k' d', nth_error (drivers F m) k' = Some d' -> drives d' (d_id dc) b = true -> k' = k.
+Proof. exact (sv_single_driver_sound F m). Qed.
+(* and a `false` from its first half exhibits two drivers whose footprints really overlap *)
+Theorem C03_multi_driver_witness ds : pairwise_disjoint ds = false ->
+  exists k1 k2 d1 d2 a c, (k1 < k2)%nat /\ nth_error ds k1 = Some d1 /\ nth_error ds k2 = Some d2 /\
+    In a (snd d1) /\ In c (snd d2) /\ ivl_overlap a c = true.
+Proof. exact (multi_driver_witness ds). Qed.
+
+(* ---- non-vacuity ---- *)
+(* module M ( input logic [3:0] a, input logic [3:0] b, output logic [3:0] y, output logic [0:0] z );
+     logic [3:0] r;
+     assign y = a + b;                        always_comb z = ( a + b ) < 4'd3  [as written: context 4 bits, carry lost]
+     always_ff @(posedge clk) r <= a;  r <= b;      endmodule                                                   *)
+Definition ex_te : tenv :=
+  PM.add 5%positive (PBits 4, []) (PM.add 4%positive (PBits 1, []) (PM.add 3%positive (PBits 4, [])
+    (PM.add 2%positive (PBits 4, []) (PM.add 1%positive (PBits 4, []) (PM.empty vtype))))).
+Definition ex_mod : module :=
+  mkmod 9%positive
+    [(DIn, mkdecl 1%positive (PBits 4) []); (DIn, mkdecl 2%positive (PBits 4) []);
+     (DOut, mkdecl 3%positive (PBits 4) []); (DOut, mkdecl 4%positive (PBits 1) [])]
+    [] [mkdecl 5%positive (PBits 4) []]
+    [IAssign (EId 3%positive) (EBin BAdd (EId 1%positive) (EId 2%positive));
+     IComb 10%positive [SBlocking (EId 4%positive) (EBin BLt (EBin BAdd (EId 1%positive) (EId 2%positive)) (ELit 4 3))];
+     IFF 11%positive [SNonBlocking (EId 5%positive) (EId 1%positive); SNonBlocking (EId 5%positive) (EId 2%positive)]].
+Definition ex_file : file := mkfile [] [ex_mod].
+Definition ex_trace : list cyc :=
+  [([(1%positive, VZ 9); (2%positive, VZ 8)], [(3%positive, VZ 1); (4%positive, VZ 1); (5%positive, VZ 0)]);
+   ([(1%positive, VZ 2); (2%positive, VZ 3)], [(3%positive, VZ 5); (4%positive, VZ 0); (5%positive, VZ 8)])].
+Example C03_nonvacuous :
+  sv_wellformed ex_file = true /\ sv_single_driver ex_file ex_mod = true /\
+  simulate ex_file 9%positive ex_trace = Agree /\                       (* 9 + 8 = 1 mod 16; r holds b (last write) after the edge *)
+  uniform ex_te (EBin BAdd (EId 1%positive) (EId 2%positive)) = true /\
+  (* a duplicated assign is rejected; an unequal-width operand pair is not `uniform` *)
+  sv_single_driver (mkfile [] [mkmod 9%positive (m_ports ex_mod) [] (m_decls ex_mod) (IAssign (EId 3%positive) (EId 1%positive) :: m_items ex_mod)])
+                   (mkmod 9%positive (m_ports ex_mod) [] (m_decls ex_mod) (IAssign (EId 3%positive) (EId 1%positive) :: m_items ex_mod)) = false /\
+  uniform ex_te (EBin BAdd (EId 1%positive) (EId 4%positive)) = false /\
+  (* context sizing DOES matter without the hypothesis: (a + b) >> 1 in an 8-bit context keeps the carry *)
+  eval_ctx ex_te (PM.add 2%positive (VZ 8) (PM.add 1%positive (VZ 9) (PM.empty value))) 8
+           (EBin BShr (EBin BAdd (EId 1%positive) (EId 2%positive)) (ELit 1 1)) = 8 /\
+  eval_sd ex_te (PM.add 2%positive (VZ 8) (PM.add 1%positive (VZ 9) (PM.empty value)))
+           (EBin BShr (EBin BAdd (EId 1%positive) (EId 2%positive)) (ELit 1 1)) = 0.
+Proof. vm_compute. repeat split. Qed.
+
+Print Assumptions C03_selfdet_eq_ctx. Print Assumptions C03_assignment_stores_width_strict_value.
+Print Assumptions C03_eval_range. Print Assumptions C03_nonblocking_defers. Print Assumptions C03_ff_block_reads_pre_edge.
+Print Assumptions C03_blocking_immediate. Print Assumptions C03_nonblocking_last_wins.
+Print Assumptions C03_single_driver. Print Assumptions C03_multi_driver_witness.
